@@ -27,6 +27,26 @@ def alphabet(rng, m, n_mats=3):
     return mats
 
 
+def hard_alphabet(rng, m):
+    """well-conditioned CONFLICTING matrices on which the first convex sub-problem handed to the solver is ill-posed
+    from uniform starting weights: a row exactly orthogonal to the sum of the rows (the solver's problem data contain
+    1/0), or with a slightly negative inner product with it (the solver reports `unbounded`).  Legal inputs: the call
+    must succeed and the schedule must not notice."""
+    fixed = {2: [[[1, 0], [-1, 1]], [[1, 2], [-3, -1]], [[1, 0], [-1.25, 2]], [[1, 0], [-1.1, 1]]],
+             3: [[[1, 0, 0], [0, 1, 0], [-1, -1, 1]], [[1, 0, -.5], [-.5, 2, 1], [-1, -.5, -1]]]}
+    mats = []
+    for _ in range(2):
+        if m in fixed and rng.random() < 0.7:
+            mats.append(torch.tensor(rng.choice(fixed[m]), dtype=DT))
+        else:
+            J = alphabet(rng, m, 1)[0]
+            S = J[:-1].sum(dim=0)
+            d = J[-1]
+            J[-1] = -(float(d @ S) / float(d @ d)) * d * rng.choice([1.0, 1.0, 1.05])
+            mats.append(J)
+    return mats + alphabet(rng, m, 1)
+
+
 def call(A, J):
     try:
         return "ok", A.weighting(J).clone()
@@ -134,6 +154,18 @@ def main(ctx: Ctx):
                          sample={"n_tasks": m, "update_weights_every": k, "history": list(h), "max_norm": mx})
                 if not ok:
                     break
+    # alphabets containing matrices on which the solver's first sub-problem is ill-posed
+    for m in ((2, 3) if quick else (2, 3, 4)):
+        for rep_ in range(2 if quick else 20):
+            mats = hard_alphabet(rng, m)
+            hists = [h for n in range(1, L + 1) for h in itertools.product(symbols, repeat=n) if h[0] != "r"]
+            for k in (1, 2, 3):
+                for h in rng.sample(hists, 10 if quick else 60):
+                    ok = run_history(ctx, mats, m, k, h, rng.choice([1.0, 5.0]))
+                    ctx.case(("hard", m, k, h, rep_), nontrivial=len(h) > 1)
+                    ctx.count("hard_alphabet_histories")
+                    if not ok:
+                        break
     # random longer histories
     for _ in range(6 if quick else 150):
         m = rng.choice([2, 3, 4])
@@ -146,7 +178,8 @@ def main(ctx: Ctx):
     ctx.cov["exhaustive_space"] = f"histories over 3 matrices + reset up to length {L} (all in thorough, 18 sampled per (m,k) in quick)"
     return ctx.finish(
         rule="black-box histories over an alphabet of 3 well-conditioned matrices (2..5 rows) + reset(), k = "
-             "update_weights_every in 1..4: every call must succeed; after reset() outputs equal those of a newly "
+             "update_weights_every in 1..4 (and alphabets with matrices on which the solver's first sub-problem is ill-posed: a "
+             "row orthogonal / slightly opposed to the sum of the rows): every call must succeed; after reset() outputs equal those of a newly "
              "constructed instance on the same suffix; calls that the Lean schedule model maps to the same solver answer "
              "return identical weights; scheduled recomputations equal a k=1 twin fed only the scheduled matrices; norm "
              "bound and pure rescaling under max_norm",
